@@ -426,8 +426,14 @@ def table_arg_value(fn, du, node_id, expr, own_table=None):
   ok, v = const_value(expr)
   if ok and isinstance(v, str):
     return v
-  if isinstance(expr, ast.Name) and own_table is not None:
+  if isinstance(expr, ast.Name):
     ps = fn.fi.params()
-    if len(ps) >= 2 and expr.id == ps[1] and unrebound_at(fn, du, expr.id, node_id):
+    if own_table is not None and len(ps) >= 2 and expr.id == ps[1] and \
+        unrebound_at(fn, du, expr.id, node_id):
       return own_table
+    if expr.id not in ps:
+      d = single_def(fn, expr.id)       # a local naming a literal table id
+      ok, v = const_value(d) if d is not None else (False, None)
+      if ok and isinstance(v, str) and len(du.rebinders(expr.id)) == 1:
+        return v
   return None
